@@ -196,6 +196,15 @@ def family_f6():
     k = K()
     add([I.for_(I.name("i"), k(), [I.with_(k(), "w", [I.if_(k(), [I.brk()]), I.assign(I.name("a"), I.site(k()))])]),
          I.assign(I.name("z"), I.site(k()))], "for_with_break")
+    # loop variables whose names share letters with the prefixes of their meta-variables (#loop_n, #endloop_elem, #loop__)
+    k = K()
+    add([I.for_(I.name("n"), k(), [I.for_(I.name("elem"), k(), [I.assign(I.name("a"), I.site(k())), I.if_(k(), [I.brk()])]),
+                                    I.if_(k(), [I.cont()])]),
+         I.ret(I.site(k()))], "loopvars_n_elem")
+    k = K()
+    add([I.for_(I.name("_"), k(), [I.assign(I.name("a"), I.site(k()))]),
+         I.for_(I.name("line"), k(), [I.if_(k(), [I.ret(I.site(k()))]), I.raise_(k())]),
+         I.assign(I.name("d"), I.site(k()))], "loopvars_underscore_line")
     k = K()
     add([I.assign(I.name("a"), I.site(k())),
          I.with_(k(), "w", [I.raise_(k()), I.ret(I.site(k()))], sup=True)], "trailing_with_swallows")
